@@ -44,6 +44,7 @@ HSend(e) ==
   ELSE IF e.res = "ok" /\ OutOfOrder(e) THEN Rej("c20.queued_queries_out_of_order")
   ELSE /\ tq' = IF e.res = "ok" THEN NoteFrames(tq, e.frames, 1, e.fd) ELSE tq
        /\ tfd' = [tfd EXCEPT ![e.fd].wpend = (e.tcp = 1 /\ (e.res = "wb" \/ (e.res = "ok" /\ e.n < e.len))),
+                             ![e.fd].err = @ \/ (e.res = "err"),
                              ![e.fd].lastseq = IF e.res = "ok" THEN MaxSeq(e) ELSE @]
        /\ mustTcp' = IF e.res = "ok" /\ e.tcp = 1 THEN mustTcp \ {e.frames[i].qid : i \in 1..Len(e.frames)} ELSE mustTcp
        /\ wr' = wr \ {e.fd}
@@ -51,20 +52,24 @@ HSend(e) ==
 
 (* consume every message that is now complete on a TCP connection *)
 RECURSIVE Complete(_, _, _)
-Complete(fd, pks, avail) ==      \* returns <<remaining messages, remaining bytes, set of final qids, set of all complete pkts>>
-  IF Len(pks) = 0 \/ avail < pks[1].slen THEN <<pks, avail, {}>>
+Complete(fd, pks, avail) ==      \* returns <<remaining messages, remaining bytes, set of final qids, some complete message unparsable>>
+  IF Len(pks) = 0 \/ avail < pks[1].slen THEN <<pks, avail, {}, FALSE>>
   ELSE LET rest == Complete(fd, Tail(pks), avail - pks[1].slen)
-       IN <<rest[1], rest[2], (IF FinalAnswer(fd, pks[1]) THEN {pks[1].qid} ELSE {}) \cup rest[3]>>
+       IN <<rest[1], rest[2], (IF FinalAnswer(fd, pks[1]) THEN {pks[1].qid} ELSE {}) \cup rest[3], rest[4] \/ pks[1].parse = 0>>
 
 HRecv(e) ==
-  IF e.fd \notin DOMAIN tfd \/ tfd[e.fd].srv = 0 \/ e.res # "ok" THEN Skip
+  IF e.fd \notin DOMAIN tfd \/ tfd[e.fd].srv = 0 THEN Skip
+  ELSE IF e.res \in {"err", "eof"} THEN      \* connection failure: its queries are requeued, answers on it are moot
+       tfd' = [tfd EXCEPT ![e.fd].err = TRUE] /\ UNCHANGED <<tcfg, tq, due, got, mustTcp, cseq, xv>> /\ Acc
+  ELSE IF e.res # "ok" THEN Skip
   ELSE IF ~tfd[e.fd].tcp THEN
        IF e.fromok = 0 THEN Skip
+       ELSE IF e.parse = 0 /\ e.len > 0 THEN tfd' = [tfd EXCEPT ![e.fd].err = TRUE] /\ UNCHANGED <<tcfg, tq, due, got, mustTcp, cseq, xv>> /\ Acc
        ELSE IF Truncated(e.fd, e) THEN mustTcp' = mustTcp \cup {e.qid} /\ UNCHANGED <<tcfg, tfd, tq, due, got, cseq, xv>> /\ Acc
        ELSE IF FinalAnswer(e.fd, e) THEN due' = due \cup {e.qid} /\ got' = got \cup {e.qid} /\ UNCHANGED <<tcfg, tfd, tq, mustTcp, cseq, xv>> /\ Acc
        ELSE Skip
   ELSE LET r == Complete(e.fd, tfd[e.fd].pk, tfd[e.fd].inb + e.n) IN
-       /\ tfd' = [tfd EXCEPT ![e.fd].pk = r[1], ![e.fd].inb = r[2]]
+       /\ tfd' = [tfd EXCEPT ![e.fd].pk = r[1], ![e.fd].inb = r[2], ![e.fd].err = @ \/ r[4]]
        /\ due' = due \cup r[3] /\ got' = got \cup r[3]
        /\ UNCHANGED <<tcfg, tq, mustTcp, cseq, xv>> /\ Acc
 
@@ -92,14 +97,14 @@ HCall(e) ==
   ELSE Stop
 
 HSk(e) ==
-  CASE e.op = "open" /\ e.res = "ok" -> /\ tfd' = tfd @@ (e.fd :> [tcp |-> (e.tcp = 1), srv |-> 0, inb |-> 0, pk |-> <<>>, wpend |-> FALSE, lastseq |-> 0, annw |-> 0, open |-> TRUE])
+  CASE e.op = "open" /\ e.res = "ok" -> /\ tfd' = tfd @@ (e.fd :> [tcp |-> (e.tcp = 1), srv |-> 0, inb |-> 0, pk |-> <<>>, wpend |-> FALSE, lastseq |-> 0, annw |-> 0, open |-> TRUE, err |-> FALSE])
                                         /\ UNCHANGED <<tcfg, tq, due, got, mustTcp, cseq, xv>> /\ Acc
     [] e.op = "connect" /\ e.res # "err" /\ e.fd \in DOMAIN tfd -> tfd' = [tfd EXCEPT ![e.fd].srv = e.srv] /\ UNCHANGED <<tcfg, tq, due, got, mustTcp, cseq, xv>> /\ Acc
     [] e.op = "send" -> HSend(e)
     [] e.op = "recv" -> HRecv(e)
     [] e.op = "close" /\ e.fd \in DOMAIN tfd ->
          \* queries on a closed connection are requeued: nothing is owed for answers that were on it
-         LET ids == {id \in DOMAIN tq : tq[id].fd = e.fd} IN
+         LET ids == IF tfd[e.fd].err THEN {id \in DOMAIN tq : tq[id].fd = e.fd} ELSE {} IN
          /\ due' = due \ ids /\ tfd' = [tfd EXCEPT ![e.fd].open = FALSE]
          /\ UNCHANGED <<tcfg, tq, got, mustTcp, cseq, xv>> /\ Acc
     [] OTHER -> Skip
